@@ -144,6 +144,14 @@ impl Session {
     ) -> Result<(Session, Enr), Error> {
         // check and verify a potential ENR update
 
+        // An ENR provided in the handshake must belong to the node it claims to come from.
+        // Otherwise the signature below would be verified against an unrelated key.
+        if let Some(enr) = enr_record.as_ref() {
+            if &enr.node_id() != remote_id {
+                return Err(Error::InvalidEnr);
+            }
+        }
+
         // Duplicate code here to avoid cloning an ENR
         let remote_public_key = {
             let enr = match (enr_record.as_ref(), challenge.remote_enr.as_ref()) {
